@@ -419,3 +419,66 @@ Proof.
     split; [|congruence].
     intros n. rewrite Hdep, G3. rewrite (key_eqb_sym node n). destruct (key_eqb n node); [proj_simpl; cbn [lamports]|rewrite lamports_purge_acct]; clear; lia.
 Qed.
+
+(* ------------------------------------------------------------------------------------------------------------------ *)
+(* non-vacuity                                                                                                         *)
+Ltac closed1 := lazymatch goal with
+  | |- forall _, _ => fail
+  | |- _ => first [reflexivity | (vm_compute; reflexivity) | (vm_compute; discriminate)]
+  end.
+Ltac closed := repeat split; closed1.
+
+(* two validators owe 300 and 500 lamports; both deposits are funded; the debt bitmap is the byte 0 of the tail *)
+Definition ex13_deposit (node : key) (extra : N) : acct :=
+  ex_acct (rent LEN_DEPOSIT + extra) LEN_DEPOSIT (DDeposit {| dp_node := node; dp_written_off := 0 |}).
+Definition ex13_pay_world : world :=
+  put (put (put (put (put world0
+    KRdConfig (ex_acct (rent LEN_CONFIG_ALLOC) LEN_CONFIG_ALLOC (DConfig ex_cfg)))
+    (KRdDist 5) (ex_acct (rent (LEN_DIST + 1)) (LEN_DIST + 1) (DDist ex_dist5 [0])))
+    (KRdDeposit (KUser 11)) (ex13_deposit (KUser 11) 300))
+    (KRdDeposit (KUser 12)) (ex13_deposit (KUser 12) 700))
+    KRdJournal (ex_acct (rent LEN_CONFIG_ALLOC) LEN_CONFIG_ALLOC (DJournal journal_default)).
+
+Example pay_debt_progress_nonvacuous :
+  pay_ready ex13_pay_world 5 (KUser 12) 500 (proof_for PRE_DEBT ex_debts 1) 1 ex_cfg ex_dist5 [0]
+            {| dp_node := KUser 12; dp_written_off := 0 |} journal_default /\
+  let '(W', ok) := exec_tx ex13_pay_world (rd_tx [KUser 1] (RPayDebt 500 (proof_for PRE_DEBT ex_debts 1)) (sdk_pay_debt 5 (KUser 12))) in
+  ok = true /\
+  forallb (fun k => acct_eqb (get W' k) (pay_debt_acct ex13_pay_world 5 (KUser 12) 500 1 ex_dist5 [0] journal_default k))
+          [KRdConfig; KRdDist 5; KRdDeposit (KUser 11); KRdDeposit (KUser 12); KRdJournal; KUser 1] = true /\
+  data (get W' (KRdDist 5)) = DDist (pay_debt_dist ex_dist5 500) [2] /\
+  lamports (get W' (KRdDeposit (KUser 12))) = rent LEN_DEPOSIT + 200 /\ lamports (get W' KRdJournal) = rent LEN_CONFIG_ALLOC + 500.
+Proof. split; [constructor; closed|]. vm_compute. repeat split. Qed.
+
+(* after the last payment: the counter equals the number of leaves and every leaf bit is set *)
+Corollary pay_all_complete f e root pf L W c d tail j :
+  pay_phase W e root pf 0 L c d tail j -> d_payments_count d = 0 -> N.of_nat (length L) < two32 ->
+  exists W' d' tail',
+    run_txs W (pay_txs f e L pf 0) = (W', true) /\
+    data (get W' (KRdDist e)) = DDist d' tail' /\
+    d_payments_count d' = N.of_nat (length L) /\
+    (forall idx, idx < N.of_nat (length L) -> range_bit tail' (d_debt_start d') idx = true) /\
+    lamports (get W' KRdJournal) = lamports (get W KRdJournal) + sumN (map snd L).
+Proof.
+  intros P H0 Hlen.
+  destruct (pay_all_ok f e root pf L W 0 c d tail j P) as (W' & d' & tail' & j' & Hrun & Pend & Hd' & Hcnt & _ & _ & Hbits & _ & Hjl & _).
+  exists W', d', tail'. split; [exact Hrun|]. split; [exact (pp_dist_data _ _ _ _ _ _ _ _ _ _ Pend)|].
+  split; [rewrite Hcnt, H0, N.add_0_l; apply N.mod_small; exact Hlen|].
+  split; [|exact Hjl]. intros idx Hidx. rewrite Hd'. proj_simpl. apply Hbits. lia.
+Qed.
+
+Definition ex13_leaves : list (key * N) := [(KUser 11, 300); (KUser 12, 500)].
+Example pay_all_ok_nonvacuous :
+  pay_phase ex13_pay_world 5 (tree_root PRE_DEBT ex_debts) (proof_for PRE_DEBT ex_debts) 0 ex13_leaves ex_cfg ex_dist5 [0] journal_default /\
+  let '(W', ok) := run_txs ex13_pay_world (pay_txs 1 5 ex13_leaves (proof_for PRE_DEBT ex_debts) 0) in
+  ok = true /\
+  data (get W' (KRdDist 5)) = DDist (ex_dist5 <| d_collected_sol := 800 |> <| d_payments_count := 2 |>) [3] /\
+  lamports (get W' KRdJournal) = rent LEN_CONFIG_ALLOC + 800 /\
+  lamports (get W' (KRdDeposit (KUser 11))) = rent LEN_DEPOSIT /\ lamports (get W' (KRdDeposit (KUser 12))) = rent LEN_DEPOSIT + 200.
+Proof.
+  split; [|vm_compute; repeat split].
+  constructor; try closed.
+  - intros idx H. assert (idx = 0 \/ idx = 1) as [->| ->] by (cbn in H; lia); reflexivity.
+  - intros [|[|[|n]]] node amt H; cbn in H; try discriminate H; injection H as <- <-; vm_compute; split; reflexivity.
+  - intros node amt H. unfold ex13_leaves in H. cbn [In] in H. destruct H as [H|[H|[]]]; injection H as <- <-; eexists; closed.
+Qed.
